@@ -185,7 +185,7 @@ class C15(Check):
     }
     shrink_lists: list[str] = []
     quick_runs = 1600
-    thorough_runs = 40000
+    thorough_runs = 400000
     chunk = 25
     smoke_runs = 6
 
